@@ -40,7 +40,7 @@ def run(prog, chk):
     from props import C10
     C10.error_swallow(prog, chk)  # a clip-path / reference that cannot be parsed or resolved is an error, not "no clip"
     C10.registration(prog, chk)  # an element placed against a target that is not resolved yet has no (or a wrong) box in the extent
-    transform_fold(prog, chk)
+    # the fold of a box through the transform list is decided by the evaluated site `transform-fold` (A17)
     config_is_incremental(prog, chk)
     from props import geomalg
     geomalg.check_sites(prog, chk, "C08")
